@@ -208,6 +208,26 @@ func addTomlIntrinsics(m map[string]intrinsic) {
 			return &IfaceV{T: types.NewSlice(types.NewInterfaceType(nil, nil)), V: &SliceV{Len: cbv(0, 64)}}
 		}
 	}
+	m["(*"+tomlPkg+".Tree).Keys"] = func(e *Exec, fn *ssa.Function, args []Value) Value {
+		t := e.tomlTreeOf(args[0])
+		if t == nil {
+			if p, ok := args[0].(*PtrV); ok && p.O == nil {
+				panic(goPanic{msg: "nil pointer dereference (*toml.Tree)", site: e.curSite})
+			}
+			e.unsupported("Keys on unknown toml tree")
+		}
+		e.stub("native:toml.Tree.Keys")
+		return e.strSliceVal(t.Keys())
+	}
+	m["(*"+tomlPkg+".Tree).Has"] = func(e *Exec, fn *ssa.Function, args []Value) Value {
+		t := e.tomlTreeOf(args[0])
+		key, ok := concStr(args[1])
+		if t == nil || !ok {
+			e.unsupported("Has on unknown toml tree or symbolic key")
+		}
+		e.stub("native:toml.Tree.Has")
+		return cbool(t.Has(key))
+	}
 	m["(*"+tomlPkg+".Tree).Unmarshal"] = func(e *Exec, fn *ssa.Function, args []Value) Value {
 		t := e.tomlTreeOf(args[0])
 		if t == nil {
